@@ -5,6 +5,7 @@ import (
 	"os"
 	"os/exec"
 	"path/filepath"
+	"sort"
 	"strings"
 
 	"ariga.io/atlas/sql/migrate"
@@ -150,6 +151,101 @@ func thirdParty(c *rt.Ctx) {
 		c.Count("third-party-import:"+cs.Format, 1)
 		if strings.Join(norm(imp), "\x00") != strings.Join(cs.Stmts, "\x00") {
 			c.Violation("third-party|"+class+"|import-sequence", fmt.Sprintf("imported directory yields %q, the source holds %q", norm(imp), cs.Stmts), cs, nil)
+		}
+	})
+}
+
+// multiFile: `atlas migrate import` of hand-written directories with SEVERAL files — among them files
+// that share a version (Flyway repeatable migrations R__*.sql all get the version of the last versioned
+// file) — must carry over every statement the source reader yields, in the reader's order.
+func multiFile(c *rt.Ctx) {
+	if c.Atlas == "" {
+		return
+	}
+	type mf struct {
+		Format string            `json:"format"`
+		Files  map[string]string `json:"files"`
+	}
+	up := func(n int) string { return fmt.Sprintf("CREATE TABLE t%d (id int);\nCREATE INDEX i%d ON t%d (id);\n", n, n, n) }
+	cases := []mf{
+		{"flyway", map[string]string{"V1__a.sql": up(1), "V2__b.sql": up(2), "R__views_a.sql": "CREATE TABLE ra (id int);\n", "R__views_b.sql": "CREATE TABLE rb (id int);\n", "R__views_c.sql": "CREATE TABLE rc (id int);\n"}},
+		{"flyway", map[string]string{"V1__a.sql": up(1), "R__only.sql": "CREATE TABLE ra (id int);\n"}},
+		{"flyway", map[string]string{"V1.1__a.sql": up(1), "V1.2__b.sql": up(2), "V2__c.sql": up(3)}},
+		{"golang-migrate", map[string]string{"1_a.up.sql": up(1), "1_a.down.sql": "DROP TABLE t1;\n", "2_b.up.sql": up(2), "3_c.up.sql": up(3)}},
+		{"goose", map[string]string{"1_a.sql": "-- +goose Up\n" + up(1), "2_b.sql": "-- +goose Up\n" + up(2) + "-- +goose Down\nDROP TABLE t2;\n", "3_c.sql": "-- +goose Up\n" + up(3)}},
+		{"dbmate", map[string]string{"1_a.sql": "-- migrate:up\n" + up(1), "2_b.sql": "-- migrate:up\n" + up(2) + "-- migrate:down\nDROP TABLE t2;\n"}},
+		{"liquibase", map[string]string{"1_a.sql": "--liquibase formatted sql\n--changeset a:1\n" + up(1), "2_b.sql": "--liquibase formatted sql\n--changeset a:2\n" + up(2)}},
+	}
+	c.Par(len(cases), func(i int, w *rt.W) {
+		cs := cases[i]
+		w.Begin(map[string]any{"third-party-multi": cs})
+		root, err := os.MkdirTemp(c.Scratch, "tpm-")
+		if err != nil {
+			panic(err)
+		}
+		defer os.RemoveAll(root)
+		src, dst := filepath.Join(root, "src"), filepath.Join(root, "dst")
+		for _, d := range []string{src, dst, filepath.Join(root, "home"), filepath.Join(root, "tmp")} {
+			os.MkdirAll(d, 0o755)
+		}
+		for n, b := range cs.Files {
+			os.WriteFile(filepath.Join(src, n), []byte(b), 0o644)
+		}
+		norm := func(ss []string) []string {
+			var o []string
+			for _, s := range ss {
+				o = append(o, strings.TrimSpace(strings.TrimSuffix(strings.TrimSpace(s), ";")))
+			}
+			return o
+		}
+		d, err := openDir(cs.Format, src)
+		if err != nil {
+			panic(err)
+		}
+		files, err := d.Files()
+		if err != nil {
+			c.OOD("third-party-multi-unreadable")
+			return
+		}
+		var want []string
+		for _, f := range files {
+			ss, err := f.Stmts()
+			if err != nil {
+				c.OOD("third-party-multi-unreadable")
+				return
+			}
+			want = append(want, ss...)
+		}
+		cmd := exec.Command(c.Atlas, "migrate", "import", "--from", "file://"+src+"?format="+cs.Format, "--to", "file://"+dst)
+		cmd.Dir = root
+		cmd.Env = []string{"HOME=" + filepath.Join(root, "home"), "TMPDIR=" + filepath.Join(root, "tmp"), "ATLAS_NO_UPDATE_NOTIFIER=1", "ATLAS_NO_UPGRADE_SUGGESTIONS=1", "PATH=/usr/bin:/bin"}
+		if out, err := cmd.CombinedOutput(); err != nil {
+			c.Count("third-party-multi-import-refused:"+cs.Format, 1)
+			_ = out
+			return
+		}
+		ld, _ := migrate.NewLocalDir(dst)
+		fs, _ := ld.Files()
+		var imp []string
+		for _, f := range fs {
+			ss, err := f.Stmts()
+			if err != nil {
+				c.Violation("third-party|"+cs.Format+"|multi-file|import-unreadable", err.Error(), cs, nil)
+				return
+			}
+			imp = append(imp, ss...)
+		}
+		c.Count("third-party-multi-import:"+cs.Format, 1)
+		c.Eval(rt.Digest("tpm", cs), true)
+		if strings.Join(norm(imp), "\x00") != strings.Join(norm(want), "\x00") {
+			kind := "statements-lost-or-added"
+			a, b := append([]string(nil), norm(imp)...), append([]string(nil), norm(want)...)
+			sort.Strings(a)
+			sort.Strings(b)
+			if strings.Join(a, "\x00") == strings.Join(b, "\x00") {
+				kind = "reordered"
+			}
+			c.Violation("third-party|"+cs.Format+"|multi-file|import-sequence|"+kind, fmt.Sprintf("imported directory yields %q, the source reader yields %q", norm(imp), norm(want)), cs, nil)
 		}
 	})
 }
